@@ -1,1 +1,57 @@
-From Coq Require Import ZArith.
+(* C13 — Metadata: defaults, suggested palette, viewBox validation, chunk framing.
+   Statements only; proofs in proofs/DecProofs.v. *)
+From Coq Require Import ZArith Bool List.
+From IVG Require Import SF NumCodec Color Calls Decoder DecProofs.
+Import ListNotations.
+Local Open Scope Z_scope.
+
+(* the Reset delivered carries the viewBox and (sanitised) palette the metadata section yields *)
+Theorem reset_args : forall os b its m rest m',
+  dec_metadata b = (its, ChunksOk m rest) -> apply_opts os m = Some m' ->
+  exists tl, fst (decode_calls os b) = CReset (m_vb m') (sanitize_palette (m_pal m')) :: tl.
+Proof. exact DecProofs.reset_palette. Qed.
+Print Assumptions reset_args.
+
+(* absent chunks: -32,-32,32,32 and 64 opaque blacks *)
+Theorem metadata_defaults : forall rest,
+  dec_metadata (magic ++ 0 :: rest) = ([ILine magic PMagic; ILine [0] (PNChunks 0)], ChunksOk default_meta rest).
+Proof. exact DecProofs.metadata_defaults. Qed.
+Print Assumptions metadata_defaults.
+
+(* N+1 explicit palette entries: entries outside the explicit range keep their previous (default: opaque black)
+   value, and every explicit entry is a valid premultiplied colour (indirect / non-premultiplied -> opaque black) *)
+Theorem palette_entries : forall k i form pal b its pal' rest,
+  (i + k <= length pal)%nat ->
+  read_palette k i form pal b = (its, Some (pal', rest)) ->
+  length pal' = length pal /\
+  (forall j, (j < i \/ i + k <= j)%nat -> nth j pal' opaque_black = nth j pal opaque_black) /\
+  (forall j, (i <= j < i + k)%nat -> valid_premul (nth j pal' opaque_black) = true).
+Proof. exact DecProofs.read_palette_spec. Qed.
+Print Assumptions palette_entries.
+
+(* inverted, infinite or NaN viewBoxes are rejected *)
+Theorem viewbox_accept : forall minmid m b its m' b', dec_chunk minmid m b = (its, ChunkOk m' b' 0) ->
+  viewbox_invalid (m_vb m') = false /\ m_pal m' = m_pal m.
+Proof. exact DecProofs.viewbox_accept. Qed.
+Print Assumptions viewbox_accept.
+
+(* a chunk's declared length must equal the bytes its content consumed: bytes of the lines = input consumed *)
+Theorem chunk_framing : forall minmid m b its r, dec_chunk minmid m b = (its, r) ->
+  ncalls its = 0%nat /\ pref b its (chunk_rest r) /\
+  (forall m' b' mid, r = ChunkOk m' b' mid -> (length b' < length b)%nat).
+Proof. exact DecProofs.dec_chunk_ok. Qed.
+Print Assumptions chunk_framing.
+
+(* metadata-only decoding returns the same viewBox, validates the same things, and delivers nothing *)
+Theorem viewbox_only_agrees : forall b,
+  match dec_metadata b with
+  | (_, ChunksOk m _) => decode_viewbox b = (m_vb m, Done) /\
+                         exists vb pal tl, fst (decode_calls [] b) = CReset vb pal :: tl /\ vb = m_vb m
+  | (_, ChunksErr o) => snd (decode_viewbox b) = o /\ decode_calls [] b = ([], o)
+  end.
+Proof. exact DecProofs.viewbox_only_agrees. Qed.
+Print Assumptions viewbox_only_agrees.
+
+Example ex_two_viewboxes_rejected :
+  snd (decode_calls [] [137; 73; 86; 71; 4; 10; 0; 64; 64; 64; 64; 10; 0; 64; 64; 64; 64]) = Fail EInvalidMetadataIdentifier.
+Proof. vm_compute. reflexivity. Qed.
